@@ -14,7 +14,7 @@ def envC (E : Env) : Env :=
 /-- the TABLE part of the agreement of the two mass calculators (C03's subject), plus the defaults of the call `mass(x)`
 (`ion_type='p'`, `isotope=0`, `use_isotope_on_mods=False`): residue mass = mass of the residue composition, charge /
 ion-type term = mass of its composition, the ion-type adjustment plus the (neutral) charge carrier has the atoms of the two
-termini, the supplied dicts have distinct keys, every modification resolves, plain shifts are scaled by their multiplier.
+termini, the supplied dicts have distinct keys, plain shifts are scaled by their multiplier.
 How far the tabulated modification masses `E.mu` are from the composition masses is NOT assumed here: it enters the bound as
 an explicit slack term. -/
 structure Coherent (E : Env) : Prop where
@@ -29,7 +29,6 @@ structure Coherent (E : Env) : Prop where
   noIsoMods : E.useIsotopeOnMods = false
   ionP : E.ionP = true
   iso0 : E.isotope = 0
-  nobad : ∀ m : Mod, isBad E m = false
   quirk : E.q.deltaIgnoresMult = false
 
 /-! ### modifications on the composition path -/
@@ -187,11 +186,12 @@ theorem chemMass_sequenceComposition (E : Env) (hc : Coherent E) (b : Annotation
 /-- **the composition path of `mass`, in a coherent environment**: residues + charge / ion-type term + label shift of
 residues and termini + every modification at its ordinary weight -/
 theorem massLabel_coherent (E : Env) (hc : Coherent E) (b : Annotation) (L : List Mod) (lm : LabelMap)
-    (hst : b.static = none) (hiso : b.isotope = some L) (hl : parseIsotopeMods E.knownLabel L = .ok lm) :
+    (hst : b.static = none) (hiso : b.isotope = some L) (hl : parseIsotopeMods E.knownLabel L = .ok lm)
+    (hres : ∀ m ∈ allMods b, isBad E m = false) :
     massLabel E b = .ok (sumRes E b.seq + E.adj + seqShift E lm b.seq + termShift E lm + modsTotal (envC E) b) := by
   have hcond : condenseStatic b = .ok b := by simp [condenseStatic, hst]
   have hbad : (allMods b).any (isBad E) = false := by
-    rw [List.any_eq_false]; intro m _; simp [hc.nobad m]
+    rw [List.any_eq_false]; intro m hm; simp [hres m hm]
   have hm := modComposition_mass E hc b
   have hs := chemMass_relabel E.em lm _ (nodupKeys_sequenceComposition E b)
   rw [labelShift_sequenceComposition E hc, chemMass_sequenceComposition E hc] at hs
@@ -212,7 +212,8 @@ theorem optInt_pieceInternal (E : Env) (cur : Option (List (Int × List Mod))) (
 def pieceSeq (c : Annotation) (j : ℕ) : List Char := (c.seq.take (j + 1)).drop j
 
 theorem pieceDiff_label (E : Env) (hc : Coherent E) (c : Annotation) (j : ℕ) (m0 : Mod) (L : List Mod) (lm : LabelMap)
-    (hst : c.static = none) (hiso : c.isotope = some (m0 :: L)) (hl : parseIsotopeMods E.knownLabel (m0 :: L) = .ok lm) :
+    (hst : c.static = none) (hiso : c.isotope = some (m0 :: L)) (hl : parseIsotopeMods E.knownLabel (m0 :: L) = .ok lm)
+    (hres : ∀ m ∈ allMods c, isBad E m = false) :
     pieceDiff E { slice (core c) j (j + 1) with labile := none } =
       .ok (seqShift E lm (pieceSeq c j) + termShift E lm + sumAt (envC E) c.internal j) := by
   have hm : hasMods (core c) = true := by simp [hasMods, core, hiso]
@@ -235,8 +236,22 @@ theorem pieceDiff_label (E : Env) (hc : Coherent E) (c : Annotation) (j : ℕ) (
   rw [hpiece]
   have hmass : massOf E { seq := pieceSeq c j, isotope := some (m0 :: L), internal := pieceInternal c.internal j } =
       .ok (sumRes E (pieceSeq c j) + E.adj + seqShift E lm (pieceSeq c j) + termShift E lm + sumAt (envC E) c.internal j) := by
+    have hsub : ∀ m ∈ allMods { seq := pieceSeq c j, isotope := some (m0 :: L), internal := pieceInternal c.internal j },
+        isBad E m = false := by
+      intro m hm
+      apply hres
+      simp only [allMods, Option.getD_none, List.flatMap_nil, List.append_nil, List.nil_append, pieceInternal] at hm ⊢
+      cases hi : c.internal with
+      | none => rw [hi] at hm; simp at hm
+      | some d =>
+        rw [hi] at hm
+        simp only [Option.map_some, Option.getD_some, List.mem_flatMap, List.mem_map, List.mem_filter] at hm
+        obtain ⟨q, ⟨q', ⟨hq', _⟩, hqe⟩, hmq⟩ := hm
+        subst hqe
+        simp only [List.mem_append, List.mem_flatMap, Option.getD_some]
+        exact Or.inr ⟨q', hq', hmq⟩
     have := massLabel_coherent E hc
-      { seq := pieceSeq c j, isotope := some (m0 :: L), internal := pieceInternal c.internal j } (m0 :: L) lm rfl rfl hl
+      { seq := pieceSeq c j, isotope := some (m0 :: L), internal := pieceInternal c.internal j } (m0 :: L) lm rfl rfl hl hsub
     simp only [massOf, this]
     congr 1
     simp [modsTotal, optSum, optIntervals, optInt_pieceInternal]
@@ -250,11 +265,12 @@ def effL (E : Env) (lm : LabelMap) (c : Annotation) : List ℚ :=
   (List.range c.seq.length).map fun j : ℕ => seqShift E lm (pieceSeq c j) + sumAt (envC E) c.internal (j : ℕ)
 
 theorem pieceDiffs_label (E : Env) (hc : Coherent E) (c : Annotation) (m0 : Mod) (L : List Mod) (lm : LabelMap)
-    (hst : c.static = none) (hiso : c.isotope = some (m0 :: L)) (hl : parseIsotopeMods E.knownLabel (m0 :: L) = .ok lm) :
+    (hst : c.static = none) (hiso : c.isotope = some (m0 :: L)) (hl : parseIsotopeMods E.knownLabel (m0 :: L) = .ok lm)
+    (hres : ∀ m ∈ allMods c, isBad E m = false) :
     pieceDiffs E (splitPieces (core c)) = .ok ((List.range c.seq.length).map fun j : ℕ =>
       seqShift E lm (pieceSeq c j) + termShift E lm + sumAt (envC E) c.internal (j : ℕ)) := by
   rw [splitPieces_core]
-  exact pieceDiffs_map E _ _ _ (fun j _ => pieceDiff_label E hc c j m0 L lm hst hiso hl)
+  exact pieceDiffs_map E _ _ _ (fun j _ => pieceDiff_label E hc c j m0 L lm hst hiso hl hres)
 
 /-! ### summing over the pieces -/
 
@@ -291,7 +307,8 @@ theorem listSum_effL (E : Env) (lm : LabelMap) (c : Annotation) (hr : InRange c)
 
 /-- the shifts written for a condensed annotation carrying a (non-empty) label -/
 theorem shiftsOf_label (E : Env) (hc : Coherent E) (c : Annotation) (p : ℕ) (m0 : Mod) (L : List Mod) (lm : LabelMap)
-    (hst : c.static = none) (hiso : c.isotope = some (m0 :: L)) (hl : parseIsotopeMods E.knownLabel (m0 :: L) = .ok lm) :
+    (hst : c.static = none) (hiso : c.isotope = some (m0 :: L)) (hl : parseIsotopeMods E.knownLabel (m0 :: L) = .ok lm)
+    (hres : ∀ m ∈ allMods c, isBad E m = false) :
     shiftsOf E c p = .ok
       { internal := shiftsFrom p (effL E lm c) 0,
         nterm := termNum E p c.nterm (labelShift E.em E.ntermComp lm),
@@ -300,7 +317,7 @@ theorem shiftsOf_label (E : Env) (hc : Coherent E) (c : Annotation) (p : ℕ) (m
         unknown := c.unknown.map fun l => roundedSum E l p,
         intervals := c.intervals.map fun l => l.map fun iv => (iv, iv.mods.map fun ms => roundedSum E ms p) } := by
   obtain ⟨hn, hct⟩ := termLabelShift_some E hc (m0 :: L) lm hl
-  have hd := pieceDiffs_label E hc c m0 L lm hst hiso hl
+  have hd := pieceDiffs_label E hc c m0 L lm hst hiso hl hres
   have hs := pieceShifts_of_diffs E p (labelShift E.em E.ntermComp lm + labelShift E.em E.ctermComp lm) _ 0 _ hd
   have hmap : ((List.range c.seq.length).map fun j : ℕ =>
         seqShift E lm (pieceSeq c j) + termShift E lm + sumAt (envC E) c.internal (j : ℕ)).map
@@ -364,14 +381,14 @@ def slack (E : Env) (c : Annotation) : ℚ :=
 theorem outMass_err_label (E : Env) (hc : Coherent E) (c : Annotation) (p : ℕ) (s : Shifts) (m0 : Mod) (L : List Mod)
     (lm : LabelMap) (hst : c.static = none) (hiso : c.isotope = some (m0 :: L))
     (hl : parseIsotopeMods E.knownLabel (m0 :: L) = .ok lm) (hr : InRange c) (hn : ∀ i : ℤ, E.mu (.int i) = i)
-    (hs : shiftsOf E c p = .ok s) :
+    (hres : ∀ m ∈ allMods c, isBad E m = false) (hs : shiftsOf E c p = .ok s) :
     ∃ x, massOf E c = .ok x ∧
       |outMass E c s p - x| ≤ (writtenL c s : ℚ) * halfUlp p + (droppedL E lm c : ℚ) * threshold + slack E c := by
   have hx : massOf E c = .ok (sumRes E c.seq + E.adj + seqShift E lm c.seq + termShift E lm + modsTotal (envC E) c) := by
     simp only [massOf, hiso]
-    exact massLabel_coherent E hc c (m0 :: L) lm hst hiso hl
+    exact massLabel_coherent E hc c (m0 :: L) lm hst hiso hl hres
   refine ⟨_, hx, ?_⟩
-  rw [shiftsOf_label E hc c p m0 L lm hst hiso hl] at hs
+  rw [shiftsOf_label E hc c p m0 L lm hst hiso hl hres] at hs
   simp only [Except.ok.injEq] at hs
   subst hs
   have h1 := shiftsFrom_err p (effL E lm c) 0
